@@ -61,6 +61,7 @@ type Config struct {
 	NoRecorders bool
 	// MutateScenario edits the drawn scenario before the world is built (used by C08 to run a
 	// sibling world that differs only in its environment right before a sampled world)
+	ColdAssets     bool // the host loads assets afresh for every task instead of keeping a cache (same content, C08)
 	RedactionFlips bool // an environment change may switch the URN redaction policy on (C19f)
 	MutateScenario func(sc *gen.Scenario)
 	// IsKnown says whether a violation is a recorded open finding: those are counted and the
@@ -541,6 +542,17 @@ func (w *World) process(t *Task) {
 // currentSA returns the host's asset cache, refreshed to the latest store version unless
 // the stale-cache fault keeps the old one.
 func (w *World) currentSA() *SA {
+	sa := w.cachedSA()
+	if w.Cfg.ColdAssets && sa.Env != nil {
+		// same store version, same environment, nothing kept from earlier tasks
+		if n, err := w.Store.NewSACold(sa.Env, sa.Ver); err == nil {
+			return n
+		}
+	}
+	return sa
+}
+
+func (w *World) cachedSA() *SA {
 	latest := w.Store.Latest()
 	if w.hostSA.Ver != latest {
 		if w.On.Assets && w.T.Chance("stalecache", 1, 4) {
@@ -623,7 +635,7 @@ func (w *World) personaText(qrs []string) string {
 	case 6:
 		return []string{"+12065550123", "0788 123 123", "bob@nyaruka.com", "mailto:x"}[t.Pick("contactish", 4)]
 	case 7:
-		return []string{"@contact.name", "@(1/0)", "he said \"hi\"", "back\\slash", "Kigali", "Gasabo", "tab\there\nnewline"}[t.Pick("hostile", 7)]
+		return []string{"@contact.name", "@(1/0)", "he said \"hi\"", "back\\slash", "Kigali", "Gasabo", "tab\there\nnewline", "Remera", "Ndera", "I live in Remera", "Kicukiro"}[t.Pick("hostile", 11)]
 	case 8:
 		return "YES please"
 	case 9:
